@@ -172,6 +172,8 @@ class Sim:
         self.env.deferred_handlers = []
         self.env.install()
         self.obs: list[str] = []
+        self.eager = "eager=1" in cfg.split(";")
+        self._flushing = False
         self.app_requests: list = []
         self.conns: list = []          # PeerConnection in creation order
         self.conn_sock: dict = {}
@@ -237,6 +239,47 @@ class Sim:
             c = getattr(tgt, "__self__", None)
             if isinstance(c, peer_mod.PeerConnection) and c not in self.conns:
                 self.conns.append(c)
+                if self.eager:
+                    self._make_eager(c)
+
+    def _make_eager(self, c):
+        """Alternative schedule: whenever a message is queued for a connection, its
+        writer thread and the I/O loop run at once (they win every race against the
+        thread that queued the message), instead of after that thread has finished."""
+        orig = c.add_out_msg
+
+        def add_out_msg(msg, _orig=orig, _c=c):
+            _orig(msg)
+            if self._flushing:
+                return
+            self._flushing = True
+            try:
+                self.pump_writer(_c)
+                self.io_iteration()
+                self.io_iteration()       # (the first pass may only see the interrupt)
+                self.report_writes()
+            finally:
+                self._flushing = False
+        c.add_out_msg = add_out_msg
+
+    def pump_writer(self, c):
+        wq = c._write_msg_queue
+        if not isinstance(wq, OneShotQueue):
+            q = OneShotQueue(c._write_thread)
+            while True:
+                try:
+                    q.put(wq.get_nowait())
+                except Exception:
+                    break
+            c._write_msg_queue = wq = q
+        if wq.items and not c._write_thread.stop_requested and not c._write_thread.crashed:
+            try:
+                c.work_write_queue(c._write_thread)
+            except Exception as e:  # noqa
+                self.obs.append(f"CRASH writer {self.cname(c)} {type(e).__name__}")
+                self.env.crashes.append(("writer", e))
+                c._write_thread.crashed = True
+            c._write_thread.pause = False
 
     def cname(self, c):
         return f"c{self.conns.index(c)}" if c in self.conns else "c?"
